@@ -690,6 +690,10 @@ func (g *gen) stmt(budget int) {
 	case kind == 18 && g.impure && !g.coro && !g.inIter && len(g.byteArrays()) > 0: // iterate loop over a byte array
 		g.iterateStmt()
 	case kind == 19 && len(g.arrays) > 0:
+		if g.impure && !g.coro && !g.inIter && len(g.byteArrays()) > 0 && g.chance(35, "slicewin") {
+			g.sliceWindow()
+			break
+		}
 		g.guardedIndex()
 	case kind == 25 && len(g.consts) > 0:
 		g.constOpStmt()
@@ -799,6 +803,16 @@ func (g *gen) countedLoop(budget int) {
 		g.line("break")
 		g.depth--
 		g.line("}")
+	}
+	if g.chance(20, "loopcontinue") {
+		// "continue" after the increment: the rest of the body is skipped, the loop condition is judged again
+		g.line("if %s {", g.cond())
+		g.depth++
+		g.line("%s += 1", idx.name)
+		g.line("continue")
+		g.depth--
+		g.line("}")
+		g.stmt(0)
 	}
 	g.locals = saved
 	g.line("%s += 1", idx.name)
@@ -1050,6 +1064,69 @@ func (g *gen) byteArrays() []array {
 		}
 	}
 	return out
+}
+
+// sliceWindow binds the local slice s0 to a window of a byte array whose lower
+// bound is a masked variable, then reads and writes elements under a guard on
+// the window's length (several spellings), optionally cuts the window shorter
+// and uses its length. With a small probability the guarded index is one too
+// large: a shape only an unsound checker accepts.
+func (g *gen) sliceWindow() {
+	bytes := g.byteArrays()
+	ar := bytes[g.draw(0, len(bytes)-1, "swarr")]
+	v, ok := g.simpleRecv([]int{8, 32, 64}[g.draw(0, 2, "sww")])
+	if !ok || ar.n < 2 {
+		return
+	}
+	hi := g.draw(1, ar.n, "swhi")
+	m := maskFor(big.NewInt(int64(hi)))
+	g.line("s0 = %s[(%s & %s) .. %d]", ar.name, v, hex(m), hi)
+	k := g.draw(0, hi-1, "swk")
+	idx := k
+	if g.rare(12, "swnear") {
+		idx = k + 1
+	}
+	switch g.draw(0, 3, "swform") {
+	case 0:
+		g.line("if %d < s0.length() {", k)
+	case 1:
+		g.line("if s0.length() > %d {", k)
+	case 2:
+		g.line("if s0.length() >= %d {", k+1)
+	default:
+		g.line("if %d <= s0.length() {", k+1)
+	}
+	g.depth++
+	wrote := false
+	for _, a := range g.assignable() {
+		if a.width >= 8 && a.max.Cmp(typeMax(8)) >= 0 {
+			if a.width == 8 {
+				g.line("%s = s0[%d]", a.name, idx)
+			} else {
+				g.line("%s = (s0[%d] as %s)", a.name, idx, typeName(a.width))
+			}
+			wrote = true
+			break
+		}
+	}
+	if !wrote || g.chance(50, "swstore") {
+		e, _ := g.expr(8, typeMax(8), 1)
+		g.line("s0[%d] = %s", g.draw(0, k, "swk2"), e)
+	}
+	g.depth--
+	g.line("}")
+	if g.chance(40, "swcut") {
+		c := g.draw(0, hi, "swc")
+		g.line("if %d <= s0.length() {", c)
+		g.line("    s0 = s0[.. %d]", c)
+		g.line("}")
+		for _, a := range g.assignable() {
+			if a.width == 32 && a.max.Cmp(typeMax(32)) == 0 {
+				g.line("%s = ((s0.length() & 0xFF) as base.u32)", a.name)
+				break
+			}
+		}
+	}
 }
 
 // iterateStmt emits an iterate loop (doc/note/iterate-loops.md) over one or two
